@@ -76,7 +76,16 @@ def _cav_post(S_):
     r = S_.result
     cut = z3.SubString(sv(v), 0, z3.If(iv(lim) < 0, z3.If(z3.Length(sv(v)) + iv(lim) < 0, 0, z3.Length(sv(v)) + iv(lim)),
                                        z3.If(iv(lim) > z3.Length(sv(v)), z3.Length(sv(v)), iv(lim))))
+    isb = And(Val.is_VRef(v), S_.old.typeof(v) == S_.cid("bytes"))
+    dec = z3.Function("Decoded", Val, S)(v)
+    okb = z3.Function("Utf8Decodable", Val, B)(v)
+    cutd = z3.SubString(dec, 0, z3.If(iv(lim) < 0, z3.If(z3.Length(dec) + iv(lim) < 0, 0, z3.Length(dec) + iv(lim)),
+                                      z3.If(iv(lim) > z3.Length(dec), z3.Length(dec), iv(lim))))
     return And(Implies(Val.is_VNone(v), Val.is_VNone(r)),
+               # bytes: decoded first, then cut like any text; bytes that cannot be decoded are rejected
+               Implies(And(isb, Not(okb)), Val.is_VNone(r)),
+               Implies(And(isb, okb, Val.is_VNone(lim)), r == Val.VStr(dec)),
+               Implies(And(isb, okb, Val.is_VInt(lim)), r == Val.VStr(cutd)),
                Implies(Val.is_VStr(v), Val.is_VStr(r)),
                Implies(And(Val.is_VStr(v), Val.is_VNone(lim)), r == v),
                Implies(And(Val.is_VStr(v), Val.is_VInt(lim), iv(lim) >= 0), r == Val.VStr(cut)),
